@@ -8,7 +8,11 @@ Streams (all on the real ``Ptychography`` class, tiny CPU float32 problems from 
   resume-natural  same without touching the rng (the reloaded object draws a fresh, unseeded
                   full-batch permutation: only the summation order differs); tolerance TOL_NATURAL
   reports         right after from_file / clone: num_iters, iter_losses, iter_lrs, constraints, obj,
-                  probe equal those of the saved object (exact)
+                  probe, snapshots equal those of the saved object (exact); clone / reloaded object share no
+                  Parameter / optimizer / scheduler / model object with the source (is-identity walk); the source
+                  object is continued as well, before or after its clone (both orders over the cases)
+  resave          a checkpoint written with mode="o" over an OLDER checkpoint of the same path (zip and dir)
+                  after a reset with a smaller optimizer set / fewer snapshots reloads as what was saved
   trace           the recorded event trace of the same runs is replayed on the Lean model
                   (Model/Checkpoint.lean): every reconnect_optimizer_to_parameters call (parameter
                   identities, optimizer-state key order before/after `.to()`), every _record_iter
@@ -25,7 +29,7 @@ import time
 LEVEL = "proof"
 MANIFEST_ENTRY = {
     "category": "proof",
-    "text": "Lean 4 theorems over a protocol-level model of Ptychography checkpointing (Model/Checkpoint.lean): an abstract full-batch iteration (loss, gradient-presence, per-parameter optimizer update and scheduler are parameters of every theorem) over a concrete state — per-model parameter lists, torch-style optimizer state keyed by parameter in insertion order, LR bookkeeping of _record_iter, constraints — with save = skip-list projection composed with the C01 serializer model, from_file = C01 load + re-binding by reconnect_optimizer_to_parameters, clone = save/load fallback. Proved: resume equivalence iter^[n-k](fromFile(save(iter^[k] r))) = iter^[n] r for every split k <= n, every step function and every well-formed state, by instantiating the round-trip hypothesis with the C01/C14 round-trip theorems plus reconnect_preserves; the re-binding keeps every parameter's moments for every state (keyed by parameter), whereas the former positional re-keying keeps them iff the state keys are a prefix of the parameter list (counterexample: a parameter that never received a gradient shifts the moments to the wrong parameter and resume equivalence fails); _record_iter keeps every LR history as long as the iteration count and equals the per-iteration lookup with 0.0 for absent optimizers, for every sequence of iterations/resets with optimizers added or removed. Tied to the code on every run by a run-level differential check on real reconstructions (optimizers sgd/adam/adamw x LRs x schedulers none/plateau/exp/cyclic/linear x object types x 1-2 probe modes x 1-2 slices x zip/dir x every split point) and by replaying the recorded event trace (optimizer-state key order before/after .to(), LR bookkeeping, which parameters have state) on the Lean model.",
+    "text": "Lean 4 theorems over a protocol-level model of Ptychography checkpointing (Model/Checkpoint.lean): an abstract full-batch iteration (loss, gradient-presence, per-parameter optimizer update and scheduler are parameters of every theorem) over a concrete state — per-model parameter lists, torch-style optimizer state keyed by parameter in insertion order, LR bookkeeping of _record_iter, constraints — with save = skip-list projection composed with the C01 serializer model, from_file = C01 load + re-binding by reconnect_optimizer_to_parameters, clone = save/load fallback. Proved: resume equivalence iter^[n-k](fromFile(save(iter^[k] r))) = iter^[n] r for every split k <= n, every step function and every well-formed state, by instantiating the round-trip hypothesis with the C01/C14 round-trip theorems plus reconnect_preserves; the re-binding keeps every parameter's moments for every state (keyed by parameter), whereas the former positional re-keying keeps them iff the state keys are a prefix of the parameter list (counterexample: a parameter that never received a gradient shifts the moments to the wrong parameter and resume equivalence fails); _record_iter keeps every LR history as long as the iteration count and equals the per-iteration lookup with 0.0 for absent optimizers, for every sequence of iterations/resets with optimizers added or removed. Tied to the code on every run by a run-level differential check on real reconstructions (optimizers sgd/adam/adamw x LRs x schedulers none/plateau/exp/cyclic/linear x object types x 1-2 probe modes x 1-2 slices x zip/dir x every split point) and by replaying the recorded event trace (optimizer-state key order before/after .to(), LR bookkeeping, which parameters have state) on the Lean model. The source object is continued as well (before or after its clone), clone/reload must share no Parameter/optimizer/scheduler/model object with the source, and checkpoints re-saved with mode='o' over an older checkpoint of the same path (zip and dir, smaller optimizer set, fewer snapshots) must reload as saved.",
     "note": "Partial by nature: Lean proves that resume equivalence follows from component-wise round trip + re-binding + bookkeeping on the model; that torch's pickled modules/optimizers/schedulers really round-trip (the Pickle hypothesis of the theorems) and that the real numerical run is reproduced to tolerance is measured on every run, not proved. Full-batch only; the batch order is pinned through the public rng setter in the deterministic stream and left to the library in the natural stream. DIP/parametric models and GPU device moves are not exercised.",
     "technique": "Lean 4 proof (iterate/induction, list lemmas, reuse of C01/C14 round-trip theorems) + run-level differential check and event-trace correspondence",
 }
@@ -46,7 +50,7 @@ EXPLANATION = ("Theorems in Props/C05.lean are about Model/Checkpoint.lean (whic
 TOL_PINNED = 1e-6
 TOL_NATURAL = 1e-5
 NATURAL_COND = 2e-7     # natural stream: float observables judged only if the batch order alone moves the uninterrupted run by less
-OBSERVABLES = ("num_iters", "iter_losses", "iter_lrs", "obj", "probe", "constraints")
+OBSERVABLES = ("num_iters", "iter_losses", "iter_lrs", "obj", "probe", "constraints", "snapshots")
 
 
 class HarnessError(RuntimeError):
@@ -143,6 +147,8 @@ def gen_cfg(rng, idx, force=None):
     if loss_type:
         for cl in calls:
             cl["loss_type"] = loss_type
+    if rng.chance(0.3):
+        calls[0]["snap"] = rng.choice([1, 2])      # store_snapshots=True, store_snapshots_every
     cfg["calls"] = calls
     # request for the save_raw_data=False route; whether it is taken is decided at the checkpoint (run_case)
     cfg["raw"] = force.get("raw", rng.chance(0.6))
@@ -209,8 +215,13 @@ def run_case(ctx, drv, cfg, split, pinned, scratch):
             views_C = cp.all_opt_views(C)
             obs_B = cp.observe(B)
             obs_R0, obs_C0 = cp.observe(R), cp.observe(C)
+            shared = {"clone": cp.shared_state(C, B), "reload": cp.shared_state(R, B)}
             cp.run_calls(R, post, pin)
-            cp.run_calls(C, post, pin)
+            # the saved/cloned object itself is continued too, before or after its clone (both orders over the
+            # cases): a clone that shares training state with its source shows up in whichever runs second
+            order = "clone-first" if (split[0] + split[1] + int(bool(pinned))) % 2 == 0 else "source-first"
+            for X in ((C, B) if order == "clone-first" else (B, C)):
+                cp.run_calls(X, post, pin)
             views_R_end = cp.all_opt_views(R)
     except Exception as e:  # the checkpoint protocol itself raised on a valid configuration
         import traceback
@@ -236,9 +247,14 @@ def run_case(ctx, drv, cfg, split, pinned, scratch):
     ctx.dist[f"positions_learned={bool(np.abs((B.dset.scan_positions_px - B.dset.initial_scan_positions_px).detach().numpy()).max() > 0)}"] += 1
 
     # --- predicate 1: the reloaded / cloned object reports what the saved one reports (exact)
+    ctx.dist[f"continue_order:{order}"] += 1
+    for name, names_shared in shared.items():
+        if names_shared:
+            ctx.pred_fail(f"{name}-shares-state", f"the object returned by {name} holds training-state objects of its source (is-identity): "
+                          "continuing one changes the other", case, observed=names_shared[:12], required="no shared Parameter / optimizer / scheduler / model object")
     for name, o in (("reload", obs_R0), ("clone", obs_C0)):
         dev = cp.compare(o, obs_B0)
-        bad = {k: _js(v) for k, v in dev.items() if v != 0.0}
+        bad = {k: _js(v) for k, v in dev.items() if v != 0.0 and k != "snapshots"}
         if bad:
             ctx.pred_fail(f"{name}-reports-differently", f"right after {name} the object does not report the saved state", case,
                           observed={"differs": bad, "got": cp.summary(o)}, required=cp.summary(obs_B0))
@@ -264,16 +280,17 @@ def run_case(ctx, drv, cfg, split, pinned, scratch):
         ctx.stat_max("resume-natural:batch_order_noise_floor", floor if floor != float("inf") else 1.0)
         judged_float = floor <= NATURAL_COND
         ctx.dist[f"natural:float_observables_judged={judged_float}"] += 1
-    for name, X in (("reload", R), ("clone", C)):
+    for name, X in (("reload", R), ("clone", C), ("source", B)):
         o = cp.observe(X)
         dev = cp.compare(o, obs_U)
+        dev.pop("snapshots_exact")      # digests of float arrays: exact comparison belongs to the reports predicate
         for k in OBSERVABLES:
             if dev[k] == dev[k] and dev[k] != float("inf") and judged_float:
                 ctx.stat_max(f"{stream}:{name}:{k}", dev[k])
         if judged_float:
             bad = {k: _js(v) for k, v in dev.items() if not (v <= tol)}
         else:   # discrete part only: iteration count, constraints, LR-history keys and lengths
-            bad = {k: _js(v) for k, v in dev.items() if v == float("inf") or (k in ("num_iters", "constraints") and v != 0.0)}
+            bad = {k: _js(v) for k, v in dev.items() if v == float("inf") or (k in ("num_iters", "constraints", "snapshots") and v != 0.0)}
         if bad:
             ctx.pred_fail(f"{name}-continue-differs{sfx}",
                           f"continuing after {name} differs from the uninterrupted run beyond {tol:g} (relative)", case,
@@ -484,6 +501,85 @@ def reconnect_direct(ctx, drv, cp):
 
 
 # ---------------------------------------------------------------------------------------
+# checkpoint written over an older checkpoint of the same path
+
+def gen_resave(rng, store):
+    base = {"scan": rng.choice([[3, 3], [2, 3]]), "roi": [8, 8], "seed": rng.below(4), "rng_seed": 3 + rng.below(5), "num_probes": 1,
+            "obj_type": rng.choice(["complex", "pure_phase"]), "num_slices": 1, "learn_tilt": False, "store": store, "raw": True, "calls": []}
+    t = rng.choice(["adam", "adamw", "sgd"])
+    full = {"object": gen_opt(rng, t), "probe": gen_opt(rng, t), "dataset": {"type": "adam", "lr": rng.choice([0.01, 0.05])}}
+    dropped = rng.choice(["dataset", "probe", "dataset"])
+    smaller = {k: (dict(v) if k != dropped else {"type": "none"}) for k, v in full.items()}
+    return {"cfg": base, "resave": {"first": {"n": rng.randint(2, 3), "opt": full, "reset": True, "snap": 1},
+                                    "second": {"n": rng.randint(0, 2), "opt": smaller, "reset": True, "snap": rng.choice([1, 2])},
+                                    "post": {"n": rng.randint(1, 2)}, "dropped": dropped}}
+
+
+def resave_case(ctx, case, scratch):
+    """run A is checkpointed to PATH; the reconstruction is restarted (reset=True) with a smaller optimizer set
+    (fewer LR histories, fewer snapshots), interrupted and checkpointed to the same PATH with mode='o'.
+    Reloading PATH must report exactly what was saved and resume like the uninterrupted run."""
+    import contextlib
+    import io
+    import shutil
+    import warnings
+    from . import c05_problem as cp
+    from quantem.diffractive_imaging.ptychography import Ptychography
+    cfg, rs = case["cfg"], case["resave"]
+    store = cfg["store"]
+    path = os.path.join(scratch, "c05_resave" + (".zip" if store == "zip" else ""))
+
+    def wipe():
+        if os.path.isdir(path):
+            shutil.rmtree(path)
+        elif os.path.exists(path):
+            os.remove(path)
+    wipe()
+    ctx.count()
+    ctx.dist["stream:resave"] += 1
+    ctx.dist[f"resave:store={store}:dropped={rs['dropped']}"] += 1
+    pin = 2024
+    try:
+        U = cp.run_calls(cp.build(cfg), [rs["first"], rs["second"]])
+        cp.run_calls(U, [rs["post"]], pin)
+        B = cp.run_calls(cp.build(cfg), [rs["first"]])
+        with warnings.catch_warnings(), contextlib.redirect_stdout(io.StringIO()):
+            warnings.simplefilter("ignore")
+            B.save(path, mode="o", store=store, save_raw_data=True, verbose=0)
+            cp.run_calls(B, [rs["second"]])
+            B.save(path, mode="o", store=store, save_raw_data=True, verbose=0)
+            obs_B = cp.observe(B)
+            R = Ptychography.from_file(path)
+        obs_R0 = cp.observe(R)
+        raw_lrs = {k: len(v) for k, v in R._iter_lrs.items()}
+        cp.run_calls(R, [rs["post"]], pin)
+        obs_R = cp.observe(R)
+    except Exception:
+        import traceback
+        ctx.pred_fail("resave-raises", "re-saving over an existing checkpoint / reloading / continuing raised", case,
+                      observed=traceback.format_exc()[-1500:], required="no exception")
+        return
+    finally:
+        wipe()
+    ctx.mark(("resave", store, rs["dropped"], rs["first"]["n"], rs["second"]["n"], rs["second"]["snap"]))
+    dev = cp.compare(obs_R0, obs_B)
+    bad = {k: _js(v) for k, v in dev.items() if v != 0.0 and k != "snapshots"}
+    if bad:
+        ctx.pred_fail(f"resave-reports-differently:{store}", "a checkpoint written with mode='o' over an older checkpoint of the same path "
+                      "does not reload as what was saved", case,
+                      observed={"differs": bad, "got": cp.summary(obs_R0), "lr_history_lengths": raw_lrs}, required=cp.summary(obs_B))
+    dev = cp.compare(obs_R, cp.observe(U))
+    dev.pop("snapshots_exact")
+    for k in OBSERVABLES:
+        if dev[k] != float("inf"):
+            ctx.stat_max(f"resave:reload:{k}", dev[k])
+    bad = {k: _js(v) for k, v in dev.items() if not (v <= TOL_PINNED)}
+    if bad:
+        ctx.pred_fail(f"resave-continue-differs:{store}", "continuing after reloading a re-saved checkpoint differs from the uninterrupted run", case,
+                      observed={"differs": bad, "got": cp.summary(obs_R)}, required=cp.summary(cp.observe(U)))
+
+
+# ---------------------------------------------------------------------------------------
 
 FORCED = [
     {"opt": "adam", "sched": "none", "keys": ["object", "probe"], "shape": "single", "n": 3, "store": "zip", "obj_type": "complex"},
@@ -519,6 +615,10 @@ def run(ctx):
         if drv is not None and only is None:
             from . import c05_problem as cp0
             reconnect_direct(ctx, drv, cp0)
+        if only is None:
+            rrng = ctx.rng.fork(9)
+            for j in range(ctx.n(4, 16)):
+                resave_case(ctx, gen_resave(rrng.fork(j), ["dir", "zip"][j % 2]), scratch)
         for i in range(n_cfg):
             force = FORCED[i] if i < len(FORCED) else None
             cfg = gen_cfg(rng.fork(100 + i), i, force)
@@ -565,7 +665,13 @@ def replay(ctx, rep):
     tempfile.tempdir = scratch
     drv = None if os.environ.get("C05_NO_DRIVER") else Driver("C05")
     try:
-        run_case(ctx, drv, case["cfg"], case["split"], case.get("pinned", True), scratch)
+        if "resave" in case:
+            resave_case(ctx, case, scratch)
+        elif "direct" in case:
+            from . import c05_problem as cp0
+            reconnect_direct(ctx, drv, cp0)
+        else:
+            run_case(ctx, drv, case["cfg"], case["split"], case.get("pinned", True), scratch)
     finally:
         tempfile.tempdir = old_tmp
         if drv is not None:
